@@ -7,6 +7,7 @@ import (
 	"encoding/binary"
 	"fmt"
 	"math"
+	"math/big"
 	"sort"
 	"strings"
 
@@ -235,12 +236,25 @@ func (s *Sim) buildTx(st kernel.Step) *types.Transaction {
 		}
 		p := &side_chain_manager.RegisterSideChainParam{Address: o.Address, ChainId: ChainID(a(0)), Router: uint64(a(1)), Name: fmt.Sprintf("chain%d-%d", a(0), a(3)),
 			BlocksToWait: uint64(1 + a(3)%3), CCMCAddress: []byte{0xcc, byte(a(0)), byte(a(3))}, ExtraInfo: []byte{byte(a(3))}}
+		if uint64(a(1)) == utils.RIPPLE_ROUTER {
+			// a ripple-router chain carries its asset operator (the registering owner) in ExtraInfo
+			ei := &side_chain_manager.RippleExtraInfo{Operator: s.User(a(2)).Address, Sequence: 1, Quorum: 1, SignerNum: 1, Pks: [][]byte{{0x02, byte(a(0))}}, ReserveAmount: big.NewInt(int64(10 + a(3)))}
+			sk := common.NewZeroCopySink(nil)
+			ei.Serialization(sk)
+			p.ExtraInfo = sk.Bytes()
+		}
 		return chain.SignTx(w.NewTx(chain.SideChainManager, m, chain.Args(p), s.nextNonce()), s.signAs(st, o))
 	case "approvechain", "approveupd", "approvequit":
 		o := s.named(s.Actor(a(1)))
 		m := map[string]string{"approvechain": side_chain_manager.APPROVE_REGISTER_SIDE_CHAIN, "approveupd": side_chain_manager.APPROVE_UPDATE_SIDE_CHAIN,
 			"approvequit": side_chain_manager.APPROVE_QUIT_SIDE_CHAIN}[st.Op]
 		return chain.SignTx(w.NewTx(chain.SideChainManager, m, chain.Args(&side_chain_manager.ChainidParam{Chainid: ChainID(a(0)), Address: o.Address}), s.nextNonce()), s.signAs(st, o))
+	case "regasset": // asset binding of a ripple-router chain: [chain, operator user, destination chain, salt]
+		o := s.named(s.User(a(1)))
+		d := ChainID(a(2))
+		p := &side_chain_manager.RegisterAssetParam{OperatorAddress: o.Address, ChainId: ChainID(a(0)),
+			AssetMap: map[uint64][]byte{d: {0xa5, byte(d), byte(a(3))}}, LockProxyMap: map[uint64][]byte{d: {0x1b, byte(d), byte(a(3))}}}
+		return chain.SignTx(w.NewTx(chain.SideChainManager, side_chain_manager.REGISTER_ASSET, chain.Args(p), s.nextNonce()), s.signAs(st, o))
 	case "quitchain":
 		o := s.named(s.User(a(1)))
 		return chain.SignTx(w.NewTx(chain.SideChainManager, side_chain_manager.QUIT_SIDE_CHAIN,
@@ -307,7 +321,7 @@ func (s *Sim) namedOwner(st kernel.Step) common.Address {
 	switch st.Op {
 	case "regchain", "updchain":
 		return s.User(st.Arg(2)).Address
-	case "quitchain":
+	case "quitchain", "regasset":
 		return s.User(st.Arg(1)).Address
 	case "import":
 		return s.Actor(st.Arg(3)).Address
@@ -329,7 +343,7 @@ func ChainID(i int64) uint64 {
 // src to chain dst. variant>0 alters the payload while keeping the cross-chain id.
 func (s *Sim) ImportParam(src, dst, msg, variant int64, relayer *account.Account) *ccom.EntranceParam {
 	mp := &ccom.MakeTxParam{TxHash: MsgID(msg), CrossChainID: MsgID(msg), FromContractAddress: []byte{0xf0, byte(src)},
-		ToChainID: ChainID(dst), ToContractAddress: []byte{0xd0, byte(dst)}, Method: "unlock", Args: []byte{byte(msg), byte(variant)}}
+		ToChainID: ChainID(dst), ToContractAddress: []byte{0xd0, byte(dst)}, Method: "unlock", Args: ImportArgs(msg, variant)}
 	sink := common.NewZeroCopySink(nil)
 	mp.Serialization(sink)
 	return &ccom.EntranceParam{SourceChainID: ChainID(src), Height: uint32(100 + msg), RelayerAddress: relayer.Address[:], Extra: sink.Bytes()}
@@ -418,4 +432,13 @@ func viewArg(x int64) uint32 {
 		return 1 << 31
 	}
 	return 10000 + uint32(x%8)
+}
+
+// ImportArgs is the message body of the workload's imports: (destination address, amount) in
+// the layout the ripple router parses; the vote router treats it as opaque bytes.
+func ImportArgs(msg, variant int64) []byte {
+	sk := common.NewZeroCopySink(nil)
+	sk.WriteVarBytes([]byte{0xda, byte(msg), byte(variant)})
+	sk.WriteUint64(uint64(1000 + msg))
+	return sk.Bytes()
 }
